@@ -66,7 +66,7 @@ def judge(w, scn, res):
     if d:
         hazards.append('duplicate-request')
         res.count('duplicate_requests_seen', d)
-    if any(e.get('ev') == 'kill' for e in w.sim.log):
+    if any(e.get('ev') == 'kill' for e in w.sim.log) or any(e.get('ev') == 'fault' and e.get('kind') == 'clean_restart' for e in w.clog):
         hazards.append('restart')
     if w.warnings['older']:
         hazards.append('older-discard')
@@ -112,7 +112,53 @@ def run_shard(ctx):
         if k == 0 and ctx.shard == 0:
             res.sample({'family': scn['family'], 'outputs_jpg': scn.get('outputs_jpg'), 'faults': scn.get('faults'),
                         'history_excerpt': [(e['node'], e['inc'], {t: (v.get('o'), v.get('oi'), v.get('seq'), v.get('c')) for t, v in e['ins'].items()}) for e in w.process_log() if e['ins']][:8]})
+    realnet_pass(ctx, res)
     return res
+
+
+RELEVANT = lambda mech: mech in ('duplicate', 'reorder', 'ephemeral-reorder', 'content-altered', 'unsubscribed-topic', 'unmapped-frame')
+
+
+def realnet_pass(ctx, res):
+    """Engine B: sampled scenarios of the same generator on real pyzmq, one process per filter, real SIGKILL; the same
+    offline checkers (time-independent safety predicates only) over the merged per-process logs."""
+    from ..realnet import orch
+    for k in range(1 if ctx.quick else 10):
+        rng = ctx.rng('realnet', k)
+        scn = scenarios.gen_general(rng, rng.randrange(1 << 30), faults=('kill', 'late'))
+        scn.pop('loss', None)
+        if (ctx.shard + k) % 2 == 0:
+            # camera-like producer: big raw frames rendered into one reused buffer, fast, several consumers of the raw bytes
+            for n_ in scn['nodes']:
+                if n_['role'] == 'source':
+                    n_['beh'].update(content=['big_reused'], proc_ms=[0], nframes=40)
+                    n_['config']['outputs_jpg'] = False
+                elif 'outputs' in n_['config']:
+                    n_['config']['outputs_jpg'] = False
+            res.count('realnet_reused_buffer_scenarios')
+        try:
+            w = orch.run_real(scn, max_wall_s=12 if scn.get('faults') else 40)
+        except Exception as e:
+            res.inconclusive.append(f'realnet scenario crashed the harness: {type(e).__name__}: {e}')
+            continue
+        res.count('realnet_scenarios')
+        res.evaluations += 1
+        if not w.process_log():
+            res.count('realnet_scenarios_without_deliveries')
+            res.notes.append('realnet stderr: ' + w.stderr[-200:])
+            continue
+        topo = scenarios.Topo(scn)
+        r2 = common.Result()
+        bad = monitors.check_sets(w, topo, r2) + monitors.check_order(w, topo, r2)
+        res.count('realnet_sets_checked', r2.counters.get('sets_checked', 0))
+        res.count('realnet_deliveries_ordered', r2.counters.get('deliveries_ordered', 0))
+        res.count('realnet_real_sigkills', len(w.kills))
+        res.nontrivial(f'realnet|{scn["family"]}|{len(w.kills)}|{scn["seed"]}')
+        seen = set()
+        for mech, msg in bad:
+            if mech not in seen and RELEVANT(mech):
+                seen.add(mech)
+                res.violation(('' if mech.startswith(('rejoin-mixes', 'set-mixes')) else 'realnet:') + mech, f'[real pyzmq, real processes] {msg}; family={scn["family"]} seed={scn["seed"]}', {'realnet': True, **scn})
 
 
 def conclusive(agg, tier):
@@ -129,6 +175,13 @@ def conclusive(agg, tier):
 def replay(spec):
     common.quiet_logging()
     res = common.Result()
+    if spec.get('realnet'):
+        from ..realnet import orch
+        w = orch.run_real(spec, max_wall_s=15)
+        topo = scenarios.Topo(spec)
+        bad = [b for b in monitors.check_sets(w, topo, res) + monitors.check_order(w, topo, res) if RELEVANT(b[0])]
+        print('real-socket run (not deterministic):', len(w.process_log()), 'deliveries;', bad[:5] or 'no violation this time')
+        return 1 if bad else 0
     w, bad = run_one(spec, res)
     print('family', spec['family'], 'seed', spec['seed'], 'faults', spec.get('faults'))
     for e in w.process_log():
